@@ -3,10 +3,10 @@
 # Evidence/replays of the mutated run go to a scratch dir, the worktree is removed afterwards.
 patch="$(realpath "$1")"; id="$2"; tier="${3:-quick}"
 wt=$(mktemp -d /tmp/mw-XXXXXX); rmdir "$wt"
-git -C /repo worktree add -q --detach "$wt" HEAD || exit 2
+flock /tmp/wt.lock git -C /repo worktree add -q --detach "$wt" HEAD || exit 2
 ( cd "$wt" && git apply "$patch" ) || { git -C /repo worktree remove --force "$wt"; echo "patch does not apply"; exit 2; }
 ev=$(mktemp -d /tmp/mev-XXXXXX)
 VERIF_REPO="$wt" VERIF_EVIDENCE_DIR="$ev" VERIF_REPLAY_DIR="$ev" /verif/check "$id" --tier "$tier" | tail -${MUT_TAIL:-6}
 rc=$?
-git -C /repo worktree remove --force "$wt"; rm -rf "$ev"
+flock /tmp/wt.lock git -C /repo worktree remove --force "$wt"; rm -rf "$ev"
 exit $rc
